@@ -426,6 +426,14 @@ where
 
         let effects_total = effects.len();
         while !effects.is_empty() {
+            #[cfg(rs_store_verif)]
+            crate::verif::pt(
+                "eff.spawn",
+                crate::verif::store_id(&self.metrics),
+                0,
+                None,
+                effects.len() as i64,
+            );
             let effect = effects.remove(0);
             match effect {
                 Effect::Action(a) => {
